@@ -246,7 +246,7 @@ func init() {
 		ID: "C11", Engine: "client",
 		Generate: genC11, Decode: decodeClientSc, Execute: execC11,
 		Config: func(any) simrt.Config {
-			return simrt.Config{MaxSteps: 100000, IdleProbe: 5 * time.Second, ClockJumpPM: 10}
+			return simrt.Config{MaxSteps: 60000, IdleProbe: 5 * time.Second, ClockJumpPM: 10}
 		},
 		Runs: clientRuns(200000, 10000000),
 		Floors: []Floor{
